@@ -105,6 +105,7 @@ class Tr:
             if f in ("abs", "absolute") and ts == ["Z"]: return (f"(Z.abs {vs[0]})", "Z")
             if f == "where" and ts == ["bool", "Z", "Z"]: return (f"(if {vs[0]} then {vs[1]} else {vs[2]})", "Z")
             if f == "ones_like" and ts == ["Z"]: return ("(1)", "Z")
+            if f == "zeros_like" and ts == ["Z"]: return ("(0)", "Z")
             if f in ("asanyarray", "asarray") and len(ts) >= 1 and ts[0] == "Z": return (vs[0], "Z")
             if f in ("any", "all") and ts == ["bool"]: return (vs[0], "bool")          # per row: reduction of a one-element mask
             if f == "min" and ts == ["Z"] and vs[0] in k.calls.get("np.min", {}): return (k.calls["np.min"][vs[0]], "Z")
@@ -241,6 +242,10 @@ def block(tr, stmts, k):
 
 
 def find(tree, cls, fn):
+    if cls is None:             # a module-level function
+        for n in tree.body:
+            if isinstance(n, ast.FunctionDef) and n.name == fn: return n
+        raise Unsupported(f"function {fn} not found")
     for n in tree.body:
         if isinstance(n, ast.ClassDef) and n.name == cls:
             for m in n.body:
@@ -424,7 +429,23 @@ KERNELS += [
            branch=with_return("indices", cut=lambda s: "remove_empty_intervals" in ast.unparse(s))),
 ]
 
-GROUPS = {"view": ["gen_calc_len", "gen_pos_col_slice", "gen_neg_col_slice", "gen_col_int", "gen_ends"], "hash": ["gen_hash"], "elem": ["gen_get_element"], "rle": ["gen_rle_wrap", "gen_rle_slice_bounds", "gen_rle_step_idx", "gen_rl2_step_idx"],
+def rslice_arith(body):
+    """ragged_slice: the per-row arithmetic between the input-kind dispatch (`if isinstance(array, RaggedArray): ... else: ...`, which only
+    defines base_starts / base_ends) and the gather (`indices, shape = RaggedView(starts, lengths).get_flat_indices()`); the kernel returns
+    the (start, length) pair handed to RaggedView"""
+    i0 = next((i for i, s in enumerate(body) if isinstance(s, ast.If) and "isinstance(array, RaggedArray)" in ast.unparse(s.test)), None)
+    i1 = next((i for i, s in enumerate(body) if isinstance(s, ast.Assign) and "RaggedView(starts, lengths)" in ast.unparse(s.value)), None)
+    if i0 is None or i1 is None or i1 <= i0: raise Unsupported("ragged_slice: dispatch / gather statements not found")
+    return body[i0 + 1:i1] + [ast.Return(value=ast.Tuple(elts=[ast.Name(id="starts"), ast.Name(id="lengths")]))]
+
+
+KERNELS += [
+    # ragged_slice(array, starts, ends): start and length of every row's window (both bounds optional; negative ends from the row end)
+    Kernel("npstructures/raggedarray/raggedslice.py", None, "ragged_slice", "gen_rslice_row", [("base_starts", "Z"), ("base_ends", "Z"), ("starts0", "optZ"), ("ends0", "optZ")],
+           {"starts": "starts0", "ends": "ends0"}, ret="(Z * Z)", branch=rslice_arith),
+]
+
+GROUPS = {"view": ["gen_calc_len", "gen_pos_col_slice", "gen_neg_col_slice", "gen_col_int", "gen_ends"], "hash": ["gen_hash"], "elem": ["gen_get_element"], "rslice": ["gen_rslice_row"], "rle": ["gen_rle_wrap", "gen_rle_slice_bounds", "gen_rle_step_idx", "gen_rl2_step_idx"],
           "bits": ["gen_bit_init", "gen_bit_get", "gen_bit_get_arr", "gen_bit_unpack", "gen_bit_pack", "gen_bit_window", "gen_bit_window_last"]}
 
 
